@@ -219,6 +219,13 @@ func Atlas() []*spec.Program {
 		out = append(out, prog("a_embednoneof", append([]string{"C07"}, convProps...), baseConfig("HasEmbP"), nil, br, emb2,
 			M("HasEmbP", nil, F("Own", "string"), F("EmbP", "msg:EmbP", embed()))))
 	}
+	// --- field-less messages promoted from a nullable embedded message (by value, by pointer, repeated, map value)
+	{
+		nothing := M("Nothing", nil)
+		en := M("EmbE", nil, F("EStr", "string"), F("ByValue", "msg:Nothing", nn()), F("ByPtr", "msg:Nothing"), F("Many", "msg:Nothing", rep()), F("Keyed", "map:msg:Nothing"))
+		out = append(out, prog("a_embednempty", convProps, baseConfig("HasEmbE"), nil, nothing, en,
+			M("HasEmbE", nil, F("Own", "string"), F("EmbE", "msg:EmbE", embed()))))
+	}
 	// --- several nullable embedded messages and several oneofs promoted from by-value embedded messages in one message
 	{
 		ea := M("EmbA", nil, F("AStr", "string"), F("AInt", "int64"))
